@@ -153,6 +153,11 @@ def model_classes() -> Dict[str, type]:
     out['DefaultSQLRenderer'] = DefaultSQLRenderer
     out['DefaultDBMLRenderer'] = DefaultDBMLRenderer
     out['BaseRenderer'] = BaseRenderer
+    import pathlib, io
+    out['Path'] = pathlib.Path
+    out['TextIOWrapper'] = io.TextIOWrapper
+    from contracts.types import OtherSource
+    out['OtherSource'] = OtherSource
     for n, c in vars(BP).items():
         if inspect.isclass(c) and c.__module__ == BP.__name__:
             out[n] = c
